@@ -66,14 +66,25 @@ theorem fuel_goto (st : AState SP DV) (ph : Phase SP DV) (h : rank ph < rank st.
   show st.script.length * 18 + rank ph < _
   omega
 
-theorem fuel_afterInit (st : AState SP DV) (v : SP) (h : 6 ≤ rank st.phase) : fuel (afterInit st v) < fuel st := by
+theorem fuel_afterInit (st : AState SP DV) (v : SP) (h : 6 ≤ rank st.phase) :
+    fuel (afterInit hash st v) < fuel st := by
   have h5 : rank (.dload v : Phase SP DV) = 5 := rfl
+  have h4 : ∀ d, rank (.save .openw (hash v) .doc (.docc d) : Phase SP DV) = 4 := fun _ => rfl
   unfold afterInit; split
   · exact fuel_goto _ _ (by rw [h5]; omega)
   · exact fuel_goto _ _ (by rw [h5]; omega)
+  · exact fuel_goto _ _ (by rw [h4]; omega)
   · exact fuel_finishOp _ (by omega)
 
-attribute [local irreducible] finishOp afterInit AState.fail AState.goto fuel in
+theorem fuel_docStart (st : AState SP DV) (v : SP) (h : 6 ≤ rank st.phase) :
+    fuel (docStart hash st v) < fuel st := by
+  have h5 : rank (.dload v : Phase SP DV) = 5 := rfl
+  have h4 : ∀ d, rank (.save .openw (hash v) .doc (.docc d) : Phase SP DV) = 4 := fun _ => rfl
+  unfold docStart; split
+  · exact fuel_goto _ _ (by rw [h4]; omega)
+  · exact fuel_goto _ _ (by rw [h5]; omega)
+
+attribute [local irreducible] finishOp afterInit docStart AState.fail AState.goto fuel in
 /-- the variant decreases with every step, whatever the primitive answered -/
 theorem fuel_resume {st : AState SP DV} (hne : st.phase ≠ .fin) (r : Res SP DV) :
     fuel (resume hash st r) < fuel st := by
@@ -87,7 +98,9 @@ theorem fuel_resume {st : AState SP DV} (hne : st.phase ≠ .fin) (r : Res SP DV
       | exact fuel_fail _ _ (by simp [hph, rank, ProjPc.rank, IniPc.rank, SavePc.rank, Kind.base])
       | exact fuel_goto _ _ (by simp [hph, rank, ProjPc.rank, IniPc.rank, SavePc.rank, Kind.base])
   | lite v =>
-    simp only [resume, hph]; split <;> exact fuel_goto _ _ (by simp [hph, rank, ProjPc.rank, IniPc.rank, SavePc.rank, Kind.base])
+    simp only [resume, hph]; split
+    · exact fuel_docStart _ _ (by simp [hph, rank])
+    · exact fuel_goto _ _ (by simp [hph, rank, ProjPc.rank, IniPc.rank, SavePc.rank, Kind.base])
   | ini n v =>
     simp only [resume, hph, resumeIni]
     cases n <;> simp only <;> repeat' split
